@@ -1024,6 +1024,7 @@ func c10Variants() []Variant {
 		{Name: "in-place-balance", File: "core/state/state_object.go", Old: "	so.SetBalance(new(big.Int).Sub(so.Balance(), amount))", New: "	so.SetBalance(so.Balance().Sub(so.Balance(), amount))", Rule: "C10.K1", Construct: "in-place-balance"},
 		{Name: "staking-trie-not-committed", File: "core/state/statedb.go", Old: "	stakingRoot, err = st.stakingTrie.Commit(nil)\n", New: "	stakingRoot = st.stakingTrie.Hash()\n", Rule: "C10.K2", Construct: "stakingTrie"},
 		{Name: "delegations-blob-not-referenced", File: "core/state/statedb.go", Old: "			st.db.TrieDB().Reference(dhash, parent)\n", New: "			_ = dhash\n", Rule: "C10.K4", Construct: "leaf-references"},
+		{Name: "flush-decrements-again", File: "core/state/statedb_val.go", Old: "	if counted {\n		st.decrValidatorsStat(val)\n	}\n", New: "	_ = counted\n	st.decrValidatorsStat(val)\n", Rule: "C10.K12", Construct: "deleteValidator"},
 	}
 }
 
